@@ -560,7 +560,11 @@ impl TableStore {
         }
         let merged_table = self.save_table(merged_table)?;
         for table in &tables[1..] {
-            self.remove_head(table);
+            // The merged table is content-addressed and may be identical to one
+            // of the merged heads; its head file must be kept in that case.
+            if table.name != merged_table.name {
+                self.remove_head(table);
+            }
         }
         Ok((merged_table, lock))
     }
